@@ -22,7 +22,16 @@ arrays, nested python lists, a constant, a callable), optionally with the `valid
 here in float64 (complex128) from a copy of the values the field actually stores, with the property's formulas: an integral, a
 cumulative integral (half-cell term) or a mean of an integer field is a real number - nothing may be truncated, wrapped or cast to
 the field's dtype.  Tolerance: `==` in the exact variant for integer / bool / float64 storage, else 64 ulp of double; 64 ulp of
-SINGLE precision only when the field itself stores single-precision (float32 / complex64) numbers, 64 ulp of half for float16."""
+SINGLE precision only when the field itself stores single-precision (float32 / complex64) numbers, 64 ulp of half for float16.
+
+Scale of the values and of the geometry ("scale" / "scale-history" cases): the property has no length or value scale in it, so
+every clause is stated again for fields whose values are of the order 1e-12 ... 1e12 (SI quantities such as 1.3e-11 or 8e5; tiny
+everywhere, tiny and of one sign, one tiny constant, tiny except one cell, zero except a few tiny cells, a huge offset plus a tiny
+variation, huge everywhere, components of very different magnitude, every cell its own decade) on meshes whose cells are 1e-9 ...
+1e6 long (mixed per axis, all nanometres, all huge), and for the scaled fields s*f, s = +-1e-10 ... 1e10.  Every budget there is
+RELATIVE and elementwise: 64 ulp of (the same sum taken over |values|) x measure, i.e. of the largest partial sum that enters the
+entry concerned; nothing is ever compared with an absolute tolerance, so a result that is wrong by its own order of magnitude is
+seen however small that magnitude is."""
 import copy
 import itertools
 import numpy as np
@@ -39,10 +48,11 @@ CLAUSES = {
     "C06.cumulative_last": "last cumulative entry + cell_d * (last cell value) / 2 == integrate(d)",
     "C06.mean": "mean() == integrate()/prod(edges); mean(d) == integrate(d)/edge_d; mean([d1..dk]) (list or tuple, any order, any non-empty subset) == iterated integral / prod of the integrated edges; all directions -> plain array",
     "C06.mean_duplicates": "a direction list with a repeated direction is rejected (ValueError)",
-    "C06.linearity": "integrate / cumulative / mean of a*f+b*g == a*(..f) + b*(..g) within 64 ulp of the operand scale (integer coefficients and a representable combination for integer / bool fields, complex coefficients for complex fields)",
-    "C06.per_component": "every component of the result equals the result for the scalar field holding that component alone",
+    "C06.linearity": "integrate / cumulative / mean of a*f+b*g == a*(..f) + b*(..g) within 64 ulp of the operand scale (scale cases: elementwise, 64 ulp of |a| x sum|f| + |b| x sum|g| over the cells entering the entry, f and g of different magnitude profiles; integer coefficients and a representable combination for integer / bool fields, complex coefficients for complex fields)",
+    "C06.per_component": "every component of the result equals the result for the scalar field holding that component alone (scale cases: budget relative to that component's own sums, components of very different magnitude)",
     "C06.cell_volume": "read directly at every observation point: mesh.cell == (pmax - pmin)/n, mesh.dV == prod(cell), region.edges == pmax - pmin (4 ulp), mesh.n == shape of the value array",
     "C06.history": "observe/mutate/observe histories: after every in-place step (mesh/region scale, translate, rotate90 through any handle, Field.rotate90, renaming dims/units, overwriting the values) and every derivation of a new mesh from an observed one, all clauses above are stated again for the CURRENT geometry and values (reported under the clause concerned, sig history-after-<op>); this clause itself: the step did not raise and took effect (edges x |factor|, corners + vector, edges of the rotated pair swapped for odd k, new names / values read back; rtol 1e-9 of the coordinate scale) and left the mesh it was derived from untouched",
+    "C06.scaling": "integrate() / integrate(d) / integrate(d, cumulative=True) / mean() / mean(d) / mean([..]) of s*f == s * (the same of f) for s = +-1e-10 ... 1e10 and values of the order 1e-12 ... 1e12 on cells 1e-9 ... 1e6 long, every direction; each entry within 64 ulp of |s| x (the same sum over |values|) x measure - a relative budget, never an absolute one; the scaled field itself satisfies every clause above against the direct oracle with the same relative budget",
     "C06.translation": "the same values on a translated mesh give the same numbers (== when the shift is a whole number of power-of-two cells; else within 64 ulp x (1 + |coordinate|/edge), the cell of the shifted mesh being edges/n of rounded corners) on the accordingly shifted result mesh",
 }
 RULE = ("seeded meshes with 1-4 dims (n <= 6 per axis, anisotropic cells, renamed dims, distinct units), 1-4 components, exact and "
@@ -59,6 +69,11 @@ RULE = ("seeded meshes with 1-4 dims (n <= 6 per axis, anisotropic cells, rename
         "would wrap), fractional power-of-two cells favoured in the exact variant; data classes of NODTYPE handed over without the "
         "keyword; value forms array of the dtype / float64 array / typed array / nested lists / constant / callable; valid= and unit= "
         "keywords of the field, bc= (periodic axes / neumann / dirichlet) and subregions= keywords of the mesh on a seeded third each; every dtype also through a history; fixed dtype cases in every run; "
+        "scale: every magnitude profile of PROFILES x 1-4 dims (1-4 components, a fifth complex) x geometry classes of GEOMS (cells "
+        "1e-9..1e6 mixed per axis / nanometres / huge / unit), a second field of another profile for linearity (coefficients up to "
+        "1e+-6), three scaling factors per case (one in 1e-10..1e-6, one in 1e6..1e10, one in 1e-3..1e3, either sign), every direction "
+        "for directional / cumulative / one-direction mean, a seeded subset for the mean over several; fixed scale cases in every run; "
+        "scale-history: histories whose initial values and value steps follow magnitude profiles (ordinary -> tiny -> ordinary ...); "
         "non-trivial = more than one cell; distinct by (kind, params)")
 ASSUMPTIONS = ["bounded: <= 6 cells per axis, <= 4 dims, <= 4 components, seeded values and geometry",
                "trusted: numpy.sum on the value array, Field construction from arrays",
@@ -66,6 +81,8 @@ ASSUMPTIONS = ["bounded: <= 6 cells per axis, <= 4 dims, <= 4 components, seeded
                "(what the transformations do to them is C12/C13's business; here only a loose took-effect check); exact comparison is "
                "kept until the first rotate90 (cos(k pi/2) is not exactly 0), 64 ulp afterwards",
                "histories: <= 4 steps, factors 2^-2..2^3 / 3 / 1.5 (exact) or 10^-2..10^2 (general), either sign",
+               "scale: |values| within 1e-24 .. 1e13, cells 1e-9 .. 1e6, |s| within 1e-10 .. 1e10: every product stays far inside the "
+               "normal range of double, so the 64 ulp relative budget is meaningful for every entry (no underflow / overflow)",
                "field dtype: the values a field stores (f.array read once right after construction / after a value step, copied, "
                "converted to float64 / complex128) are the primitive state the oracle starts from - how a value specification is "
                "turned into stored values is C02's business; integers |v| <= 2^40 so that every sum is exact in double",
@@ -77,6 +94,18 @@ NAMES = ["a", "b", "c", "e", "g", "h", "k", "p", "q", "r", "s", "u", "w", "x", "
 UNITS = ["m", "s", "kg", "A", "K", "rad"]
 VNAMES = ["p", "q", "r", "s", "u", "w", "ma", "mb", "e1", "e2"]
 SIG_MEAN1D = "mean-str-direction-on-1d-mesh-raises"
+SIG_SEL = "axis-removal-raises-mixed-cell-scales"
+
+
+def _rc(e, clause, sig):
+    """clause and sig under which a raised exception is reported.  Genuine defect of the unchanged library (Mesh.__init__, cell=
+    path, reached through Mesh.sel): the divisibility test uses ONE absolute tolerance, 1e-3 * min(cell), for every axis, so a mesh
+    with nanometre cells along one axis and large cells along another cannot be rebuilt from its own region and cell - integrate(d)
+    / mean(d) raise 'Region cannot be divided into discretisation cells' instead of returning the field on the mesh with the axis
+    removed.  Reported under C06.axis_removed with its own sig, whichever quantity was being computed."""
+    if isinstance(e, ValueError) and "cannot be divided into discretisation cells" in str(e):
+        return "C06.axis_removed", SIG_SEL
+    return clause, sig
 
 
 # dtype name -> the ways it can be handed to Field(dtype=...)   ("py": the python type of that name)
@@ -91,6 +120,13 @@ CANON = {"int": "int64", "float": "float64", "complex": "complex128", "bool_": "
 # data classes handed over WITHOUT the dtype keyword (integer / bool / single precision / complex data)
 NODTYPE = ["int64", "int32", "int8", "uint8", "bool", "float32", "complex128", "complex64"]
 FORMS = ["array", "wide", "typed", "list", "const", "callable"]
+
+
+# magnitude profiles of the values / classes of geometry of the "scale" cases
+PROFILES = ["ordinary", "tiny", "tiny-positive", "tiny-constant", "si", "tiny-but-one", "sparse-tiny", "offset", "huge",
+            "mixed-components", "graded"]
+GEOMS = ["mixed", "nano", "huge", "unit"]
+SI = [1.3e-11, 8e5, 1.2566370614359173e-06, 3e-3, 5e-10, 9.274e-24, 1.76e11, 2.1e-9, 6.4e-12, 1.1e6]
 
 
 GROUPS = ["attrs", "volume", "fubini", "dir", "cum", "mean1", "means"]
@@ -161,6 +197,95 @@ def cases(ctx):
             vals = None if name is not None else str(rng.choice(NODTYPE))
             yield "dtype-history", _dtyped(rng, pr, name, vals, forms=FORMS[:4])
     yield from _fixed_dtype()
+    # ---------------- scale of the values and of the geometry
+    sreps = 2 if ctx.tier == "quick" else 10
+    for ndim in (1, 2, 3, 4):
+        for profile in PROFILES:
+            for _ in range(sreps):
+                yield "scale", _scaled(rng, ndim, profile)
+    for ndim in (1, 2, 3, 4):
+        for _ in range(2 * sreps):
+            yield "scale-history", _scale_history(rng, ndim)
+    yield from _fixed_scale()
+
+
+def _scaled(rng, ndim, profile, nvdim=None, geom=None):
+    if nvdim is None:
+        nvdim = int(rng.integers(2, 5)) if profile == "mixed-components" else int(rng.integers(1, 5))
+    pr = _base(rng, ndim, nvdim, False)
+    geom = str(rng.choice(GEOMS, p=[0.5, 0.25, 0.15, 0.1])) if geom is None else geom
+    if geom == "mixed":
+        cell = 10.0 ** rng.uniform(-9, 6, size=ndim)
+    elif geom == "nano":
+        cell = rng.uniform(1, 10, size=ndim) * 1e-9
+    elif geom == "huge":
+        cell = 10.0 ** rng.uniform(3, 6, size=ndim)
+    else:
+        cell = rng.uniform(0.5, 2, size=ndim)
+    pr["cell"] = cell.tolist()
+    pr["p1"] = (cell * rng.uniform(-10, 10, size=ndim)).tolist()
+    pr["shift"] = (cell * rng.uniform(-10, 10, size=ndim)).tolist()
+    sign = lambda: -1.0 if rng.random() < 0.3 else 1.0
+    pr.update(geom=geom, profile=profile, profile2=str(rng.choice(PROFILES)),
+              factors=[sign() * float(10.0 ** rng.uniform(-10, -6)), sign() * float(10.0 ** rng.uniform(6, 10)),
+                       sign() * float(10.0 ** rng.uniform(-3, 3))])
+    if rng.random() < 0.2:
+        pr.update(vals="complex128", vform="typed")
+    return pr
+
+
+def _scale_history(rng, ndim):
+    """a history whose values follow magnitude profiles: initial values, every value step, and at least two extra value steps"""
+    pr = _history(rng, ndim, int(rng.integers(1, 5)), False)
+    pr["profile"] = str(rng.choice(PROFILES))
+    steps = pr["steps"]
+    for _ in range(2):
+        steps.insert(int(rng.integers(0, len(steps) + 1)), {"op": "values", "how": str(rng.choice(["view", "setter", "update"])),
+                                                            "seed": int(rng.integers(1 << 30)), "obs": _obs(rng, full=True)})
+    for st in steps:
+        if st["op"] == "values":
+            st["profile"] = str(rng.choice(PROFILES))
+    pr["obs0"] = _obs(rng, full=True)
+    return pr
+
+
+def _fixed_scale():
+    """the magnitudes the statement is most often used with, in every run whatever the seed: nanometre cells, SI-sized values"""
+    nano3 = {"n": [6, 4, 3], "cell": [1e-9, 2e-9, 2e-9], "p1": [-3e-9, 0.0, -2e-9], "flip": [0, 0, 0], "dims": ["x", "y", "z"],
+             "units": ["m", "m", "m"], "nvdim": 2, "vdims": None, "exact": False, "shift": [5e-9, -2e-9, 1e-9], "geom": "nano",
+             "factors": [1e-10, -3.7e9, 0.25]}
+    line = {"n": [8], "cell": [2.5e-9], "p1": [0.0], "flip": [0], "dims": ["x"], "units": ["m"], "nvdim": 1, "vdims": None,
+            "exact": False, "shift": [1e-8], "geom": "nano", "factors": [-1e-10, 1e10, 3.0]}
+    mixed2 = {"n": [5, 3], "cell": [4e-9, 2.5e5], "p1": [-1e-8, 1e6], "flip": [1, 0], "dims": ["a", "t"], "units": ["m", "s"],
+              "nvdim": 3, "vdims": ["p", "q", "r"], "exact": False, "shift": [3e-9, -7e5], "geom": "mixed", "factors": [2e-7, 8e5, -1.0]}
+    unit4 = {"n": [2, 3, 2, 2], "cell": [1.0, 0.5, 4.0, 0.25], "p1": [0.0, 1.0, -4.0, 0.5], "flip": [0, 0, 1, 1],
+             "dims": ["x", "y", "z", "w"], "units": ["m", "m", "m", "s"], "nvdim": 2, "vdims": None, "exact": False,
+             "shift": [1.0, -2.0, 8.0, 0.75], "geom": "unit", "factors": [1e-10, 1e10, -1e-3]}
+    k = 0
+    for b in (nano3, line, mixed2, unit4):
+        for profile, other in (("ordinary", "tiny"), ("tiny", "huge"), ("tiny-constant", "ordinary"), ("si", "offset"),
+                               ("tiny-but-one", "sparse-tiny"), ("sparse-tiny", "tiny-positive"), ("offset", "tiny"), ("huge", "si"),
+                               ("tiny-positive", "graded"), ("graded", "tiny-but-one")):
+            k += 1
+            yield "scale", dict(b, profile=profile, profile2=other, seed=300 + k)
+    yield "scale", dict(mixed2, profile="mixed-components", profile2="tiny", seed=350)
+    yield "scale", dict(nano3, profile="mixed-components", profile2="huge", seed=351, vals="complex128", vform="typed")
+    yield "scale", dict(nano3, profile="tiny", profile2="ordinary", seed=352, vals="complex128", vform="typed")
+    # nanometre cells along one axis, 100 km cells along another, a third axis to remove (minimal reproducer of SIG_SEL, a genuine
+    # defect of the unchanged library: Mesh.sel cannot rebuild the remaining mesh)
+    yield "scale", {"n": [3, 4, 5], "cell": [1.0, 1.501631415614504e-09, 104862.28856403774], "p1": [0.0, 2.2080150523444495e-09, 932292.1190989116],
+                    "flip": [0, 0, 0], "dims": ["x", "y", "z"], "units": ["m", "m", "m"], "nvdim": 1, "vdims": None, "exact": False,
+                    "shift": [0.0, 0.0, 0.0], "geom": "mixed", "factors": [1e-10, 1e10, 1.0], "profile": "si", "profile2": "ordinary", "seed": 360}
+    h2 = {"n": [3, 3], "cell": [2e-9, 5e-9], "p1": [0.0, 1e-9], "flip": [0, 1], "dims": ["x", "y"], "units": ["m", "m"], "nvdim": 1,
+          "vdims": None, "exact": False, "seed": 31}
+    for first, then in (("ordinary", "tiny"), ("tiny", "ordinary"), ("huge", "sparse-tiny"), ("tiny-constant", "offset")):
+        yield "scale-history", dict(h2, profile=first, obs0=list(GROUPS), steps=[
+            {"op": "values", "how": "view", "seed": 7, "profile": then, "obs": list(GROUPS)},
+            {"op": "scale", "via": "field", "factor": [3.0, 0.5], "ref": None, "obs": list(GROUPS)},
+            {"op": "values", "how": "setter", "seed": 8, "profile": first, "obs": list(GROUPS)},
+            {"op": "rotate90", "via": "field-rotate", "ax": [0, 1], "k": 1, "ref": None, "obs": list(GROUPS)},
+            {"op": "values", "how": "update", "seed": 9, "profile": then, "obs": list(reversed(GROUPS))},
+            {"op": "derive", "how": "scale", "factor": 1e6, "ref": None, "obs": list(GROUPS)}])
 
 
 def _dtyped(rng, pr, name, vals=None, forms=FORMS):
@@ -460,6 +585,57 @@ def _values(rng, exact, shape):
     return rng.uniform(-1, 1, size=shape) * 10.0 ** rng.uniform(-6, 6)
 
 
+def _profile_values(rng, profile, shape, cplx=False):
+    """values of the magnitude profile, float64 (complex128); |v| within 1e-24 .. 1e13"""
+    nv = shape[-1]
+    cells = shape[:-1]
+    ncell = int(np.prod(cells))
+
+    def base(sh=shape):
+        u = rng.uniform(-1, 1, size=sh)
+        return u + 1j * rng.uniform(-1, 1, size=sh) if cplx else u
+
+    def tiny(sh=()):
+        return rng.uniform(1, 10, size=sh) * 10.0 ** rng.uniform(-13, -10, size=sh)       # 1e-13 .. 1e-9
+
+    if profile == "ordinary":
+        return base() * 10.0 ** rng.uniform(-3, 3)
+    if profile == "tiny":
+        return base() * tiny()
+    if profile == "tiny-positive":
+        return (np.abs(base()) + 0.01) * tiny()
+    if profile == "tiny-constant":
+        c = base((nv,)) * tiny((nv,))
+        return np.broadcast_to(c, shape).copy()
+    if profile == "si":
+        amp = rng.choice(SI, size=nv)
+        return (1 + 0.3 * base()) * amp * rng.choice([-1.0, 1.0], size=nv)
+    if profile == "tiny-but-one":
+        v = base() * tiny()
+        idx = np.unravel_index(int(rng.integers(ncell)), cells)
+        v[idx] = base((nv,)) * 10.0 ** rng.uniform(0, 5)
+        return v
+    if profile == "sparse-tiny":
+        v = base() * tiny()
+        mask = rng.random(cells) < 0.3
+        mask.flat[int(rng.integers(ncell))] = True
+        return v * mask[..., None]
+    if profile == "offset":
+        off = rng.choice([-1.0, 1.0], size=nv) * 10.0 ** rng.uniform(0, 12, size=nv)
+        return off * (1 + base() * 10.0 ** rng.uniform(-13, -5))
+    if profile == "huge":
+        return base() * 10.0 ** rng.uniform(8, 12)
+    if profile == "mixed-components":
+        amp = 10.0 ** rng.uniform(-12, 12, size=nv)
+        amp[0] = tiny()
+        if nv > 1:
+            amp[-1] = 10.0 ** rng.uniform(3, 12)
+        return base() * amp[rng.permutation(nv)]
+    if profile == "graded":
+        return base() * 10.0 ** rng.uniform(-12, 12, size=shape)
+    raise ValueError("unknown profile %r" % (profile,))
+
+
 def _draw(rng, exact, shape, vals=None, amp="small"):
     """values representable in the numpy dtype `vals`, returned as float64 / complex128 (None: the legacy float values)"""
     if vals is None:
@@ -588,19 +764,20 @@ def _observe(ctx, f, F, geo, cmp, rng, groups, sig=None, where=None):
             st["okv"], st["vol"] = okv, vol
 
         elif grp == "fubini":
-            okf, bad = True, None
+            okf, bad, fub = True, None, ("C06.fubini", None)
             for perm in itertools.permutations(range(ndim)):
                 cur = f
                 try:
                     for i in perm:
                         cur = cur.integrate(dims[i])
                 except Exception as e:
-                    okf, bad = False, (list(perm), repr(e))
+                    okf, bad, fub = False, (list(perm), repr(e)), _rc(e, *fub)
                     break
                 if not (isinstance(cur, np.ndarray) and cmp(cur, want_vol, sc_vol)):
                     okf, bad = False, (list(perm), np.asarray(cur).tolist() if isinstance(cur, np.ndarray) else repr(cur))
                     break
-            rq(okf, "C06.fubini", "iterated directional integrals differ from the volume integral", order_and_result=bad, want=want_vol)
+            rq(okf, fub[0], "iterated directional integrals differ from the volume integral" if fub[0] == "C06.fubini" else
+               "an iterated directional integral raised: the mesh with the axis removed could not be built", s=fub[1], order_and_result=bad, want=want_vol)
 
         elif grp == "dir":
             for ax, d in enumerate(dims):
@@ -608,7 +785,8 @@ def _observe(ctx, f, F, geo, cmp, rng, groups, sig=None, where=None):
                 want, sc = dir_oracle(ax)
                 r, di = raises(Exception, f.integrate, d)
                 if r:
-                    rq(False, "C06.directional", "integrate(direction) raised", s="raises-" + type(di).__name__, error=repr(di), axis=ax)
+                    cl, sg = _rc(di, "C06.directional", "raises-" + type(di).__name__)
+                    rq(False, cl, "integrate(direction) raised", s=sg, error=repr(di), axis=ax)
                     continue
                 if ndim == 1:
                     rq(isinstance(di, np.ndarray) and cmp(di, want, sc), "C06.directional", "1-d: integrate(d) != sum*cell", axis=ax)
@@ -664,8 +842,8 @@ def _observe(ctx, f, F, geo, cmp, rng, groups, sig=None, where=None):
                 di_arr = st["di"].get(ax)
                 r, me = raises(Exception, f.mean, d)
                 if r:
-                    rq(False, "C06.mean", "mean(direction) raised",
-                       s=SIG_MEAN1D if (ndim == 1 and isinstance(me, ValueError) and sig in (None, "history-initial")) else "raises-" + type(me).__name__, error=repr(me), ndim=ndim)
+                    cl, sg = _rc(me, "C06.mean", SIG_MEAN1D if (ndim == 1 and isinstance(me, ValueError) and sig in (None, "history-initial")) else "raises-" + type(me).__name__)
+                    rq(False, cl, "mean(direction) raised", s=sg, error=repr(me), ndim=ndim)
                 elif ndim == 1:
                     rq(isinstance(me, np.ndarray) and cmp(me, wantm, scm), "C06.mean", "1-d: mean(d) != integrate(d)/edge")
                 else:
@@ -693,7 +871,8 @@ def _observe(ctx, f, F, geo, cmp, rng, groups, sig=None, where=None):
                     sc = np.sum(absF, axis=tuple(sub)) * float(np.prod(cell[list(sub)])) / ext
                     r, me = raises(Exception, f.mean, dirs)
                     if r:
-                        rq(False, "C06.mean", "mean(directions) raised", s="raises-" + type(me).__name__, error=repr(me), dirs=list(dirs))
+                        cl, sg = _rc(me, "C06.mean", "raises-" + type(me).__name__)
+                        rq(False, cl, "mean(directions) raised", s=sg, error=repr(me), dirs=list(dirs))
                         continue
                     if k == ndim:
                         rq(isinstance(me, np.ndarray) and cmp(me, want, sc), "C06.mean", "mean over all directions (listed) != integral/volume",
@@ -754,8 +933,10 @@ def _combination(rng, pr, shape, exact):
 
 
 def check(kind, pr, ctx):
-    if kind in ("history", "dtype-history"):
+    if kind in ("history", "dtype-history", "scale-history"):
         return _check_history(pr, ctx)
+    if kind == "scale":
+        return _check_scale(pr, ctx)
     n = list(pr["n"])
     ndim, nv, exact = len(n), pr["nvdim"], pr["exact"]
     dims = pr["dims"]
@@ -846,6 +1027,118 @@ def _arr(x):
     return x if isinstance(x, np.ndarray) else x.array
 
 
+def _cum_sum(X, ax):
+    """sum of the preceding cells + half the own cell along axis ax (the statement's formula, cell by cell)"""
+    out = np.zeros(X.shape, dtype=X.dtype)
+    for i in range(X.shape[ax]):
+        sl = [slice(None)] * X.ndim
+        sl[ax] = i
+        pre = [slice(None)] * X.ndim
+        pre[ax] = slice(0, i)
+        out[tuple(sl)] = np.sum(X[tuple(pre)], axis=ax) + X[tuple(sl)] / 2
+    return out
+
+
+def _check_scale(pr, ctx):
+    """values 1e-12 .. 1e12, cells 1e-9 .. 1e6: all clauses against the direct oracle (through _observe, for f and every s*f) and
+    the relations scaling / linearity / per component / translation for every quantity and direction, with elementwise relative
+    budgets: each functional is a sum L(X) over cells; the budget of an entry is 64 ulp of L(|X|) of that entry"""
+    n = list(pr["n"])
+    ndim, nv, dims = len(n), pr["nvdim"], pr["dims"]
+    if int(np.prod(n)) == 1:
+        ctx.trivial()
+    mesh, lo, hi, cell = _mesh(pr)
+    geo = Geo(dims, pr["units"], n, lo, hi)
+    edges = hi - lo
+    rng = np.random.default_rng(pr["seed"])
+    shape = (*n, nv)
+    cplx = pr.get("vals") == "complex128"
+    sig = "scale-" + pr["profile"]
+    F = _profile_values(rng, pr["profile"], shape, cplx)
+    G = _profile_values(rng, pr["profile2"], shape, cplx)
+    a = float(rng.uniform(-3, 3)) if rng.random() < 0.5 else float(rng.choice([-1.0, 1.0]) * 10.0 ** rng.uniform(-6, 6))
+    b = float(rng.uniform(-3, 3)) if rng.random() < 0.5 else float(rng.choice([-1.0, 1.0]) * 10.0 ** rng.uniform(-6, 6))
+    if cplx:
+        a, b = a * complex(*rng.uniform(-1, 1, size=2)), b * complex(*rng.uniform(-1, 1, size=2))
+    f, g_ = _mk(mesh, F, pr), _mk(mesh, G, pr)
+    F, G = _stored(f), _stored(g_)
+    H = a * F + b * G
+    h = _mk(mesh, H, pr)
+    verbatim = np.array_equal(_stored(h), H)
+    cmp = Cmp(False, f.array.dtype)
+    allg = ["volume", "fubini", "dir", "cum", "mean1", "means", "attrs"]
+    _observe(ctx, f, F, geo, cmp, rng, allg, sig=sig)
+    scaled = []
+    for k, s_ in enumerate(pr["factors"]):
+        fs = _mk(mesh, s_ * F, pr)
+        Fs = _stored(fs)
+        _observe(ctx, fs, Fs, geo, cmp, rng, allg if k == 0 else ["volume", "dir", "cum", "mean1", "means"], sig=sig + "-scaled",
+                 where="the field times %r" % (s_,))
+        scaled.append((s_, fs, np.array_equal(Fs, s_ * F)))
+
+    # ---------------- the quantities as linear functionals L of the value array
+    cax = tuple(range(ndim))
+    dV = float(np.prod(cell))
+    ext = float(np.prod(edges))
+    sub = sorted(int(i) for i in rng.permutation(ndim)[:max(1, ndim - 1)])
+    dirs2 = [dims[i] for i in rng.permutation(sub)]
+    cs, es = float(np.prod(cell[sub])), float(np.prod(edges[sub]))
+    modes = [("volume", lambda q: q.integrate(), lambda X: np.sum(X, axis=cax) * dV),
+             ("mean", lambda q: q.mean(), lambda X: np.sum(X, axis=cax) * dV / ext),
+             ("mean-dirs %s" % dirs2, lambda q: _arr(q.mean(dirs2)), lambda X: np.sum(X, axis=tuple(sub)) * cs / es)]
+    for ax, d in enumerate(dims):
+        modes.append(("directional %s" % d, lambda q, d=d: _arr(q.integrate(d)), lambda X, ax=ax: np.sum(X, axis=ax) * cell[ax]))
+        modes.append(("cumulative %s" % d, lambda q, d=d: q.integrate(d, cumulative=True).array, lambda X, ax=ax: _cum_sum(X, ax) * cell[ax]))
+        modes.append(("mean %s" % d, lambda q, d=d: _arr(q.mean(d)), lambda X, ax=ax: np.sum(X, axis=ax) * cell[ax] / edges[ax]))
+
+    mesh_t, lo_t, hi_t, _ = _mesh(pr, pr["shift"])
+    ft = _mk(mesh_t, F, pr)
+    coord = np.maximum(np.maximum(np.abs(lo), np.abs(hi)), np.maximum(np.abs(lo_t), np.abs(hi_t)))
+    gfac = float(1.0 + np.max(coord / edges))
+    comps = [_mk(mesh, np.ascontiguousarray(F[..., c:c + 1]), pr, vdims=False) for c in range(nv)]
+    absF, absG = np.abs(F), np.abs(G)
+    for name, op, L in modes:
+        scF, scG = L(absF), L(absG)
+        r, rf = raises(Exception, op, f)
+        if r:
+            cl, sg = _rc(rf, "C06.scaling", "raises-%s-%s" % (name.split()[0], type(rf).__name__))
+            ctx.require(False, cl, "the quantity raised", sig=sg, error=repr(rf), mode=name)
+            continue
+        rf = np.asarray(rf)
+        # s * f
+        for s_, fs, same in scaled:
+            r, rs = raises(Exception, op, fs)
+            ok = not r and np.shape(rs) == rf.shape and (not same or _close(rs, s_ * rf, 64, abs(s_) * scF))
+            cl, sg = _rc(rs, "C06.scaling", sig) if r else ("C06.scaling", sig)
+            ctx.require(ok, cl, "the quantity of s*f is not s times the quantity of f (relative budget 64 ulp of |s| x sum|f| x measure)",
+                        sig=sg, mode=name, s=s_, got=None if r else np.asarray(rs).ravel()[:6], want=(s_ * rf).ravel()[:6],
+                        error=repr(rs) if r else None)
+        # a*f + b*g
+        r, res = raises(Exception, lambda: (np.asarray(op(g_)), np.asarray(op(h))))
+        if r:
+            cl, sg = _rc(res, "C06.linearity", "raises-%s-%s" % (name.split()[0], type(res).__name__))
+            ctx.require(False, cl, "raised", sig=sg, error=repr(res), mode=name)
+        elif verbatim:
+            ctx.require(res[1].shape == rf.shape and _close(res[1], a * rf + b * res[0], 64, abs(a) * scF + abs(b) * scG), "C06.linearity",
+                        "not linear in the field (relative budget 64 ulp of |a| sum|f| + |b| sum|g|)", sig=sig, mode=name, a=a, b=b,
+                        profiles=[pr["profile"], pr["profile2"]])
+        # per component
+        okc, badc, clc = True, None, ("C06.per_component", sig)
+        for c in range(nv):
+            rc, resc = raises(Exception, op, comps[c])
+            if rc:
+                clc = _rc(resc, *clc)
+            if rc or np.shape(resc) != rf[..., c:c + 1].shape or not cmp(np.asarray(resc)[..., 0], rf[..., c], scF[..., c]):
+                okc, badc = False, c
+        ctx.require(okc, clc[0], "component of the result != result of the component (budget relative to the component's own sums)",
+                    sig=clc[1], mode=name, component=badc)
+        # translation
+        r, rt = raises(Exception, op, ft)
+        cl, sg = _rc(rt, "C06.translation", sig) if r else ("C06.translation", sig)
+        ctx.require(not r and cmp(rt, rf, scF, gfac), cl, "result depends on the position of the mesh", sig=sg, mode=name,
+                    shift=pr["shift"], error=repr(rt) if r else None)
+
+
 # ====================================================================== histories
 def _near(a, b, scale):
     a = np.asarray(a, dtype=float)
@@ -866,8 +1159,12 @@ class _Hist:
         self.geo = Geo(pr["dims"], pr["units"], pr["n"], lo, hi)
         self.rng = np.random.default_rng(pr["seed"])
         shape = (*pr["n"], self.nv)
-        self.f = _mk(self.mesh, _draw(self.rng, self.exact, shape, self.vals, self.amp), pr)
-        self.g = _mk(self.mesh, _draw(self.rng, self.exact, shape, self.vals, self.amp), pr)
+        if pr.get("profile"):       # values of a magnitude profile (scale histories)
+            draw = lambda: _profile_values(self.rng, pr["profile"], shape)
+        else:
+            draw = lambda: _draw(self.rng, self.exact, shape, self.vals, self.amp)
+        self.f = _mk(self.mesh, draw(), pr)
+        self.g = _mk(self.mesh, draw(), pr)
         self.cmp = Cmp(self.exact)
         self.reread()
 
@@ -943,7 +1240,10 @@ def _step(H, st):
         want = (st["names"], old.units) if st["what"] == "dims" else (old.dims, st["names"])
         return (H.geo.dims, H.geo.units) == (list(want[0]), list(want[1])) and np.array_equal(H.geo.lo, old.lo), "names read back"
     if op == "values":
-        new = _draw(np.random.default_rng(st["seed"]), H.exact, H.F.shape, H.vals, H.amp)
+        if st.get("profile"):
+            new = _profile_values(np.random.default_rng(st["seed"]), st["profile"], H.F.shape)
+        else:
+            new = _draw(np.random.default_rng(st["seed"]), H.exact, H.F.shape, H.vals, H.amp)
         if st["how"] == "view":
             H.f.array[...] = new
         elif st["how"] == "setter":
@@ -994,6 +1294,8 @@ def _check_history(pr, ctx):
             ctx.trivial()
             return
     else:
+        if pr.get("profile"):
+            tag = "-scale-" + pr["profile"]
         H = _Hist(pr)
     _observe(ctx, H.f, H.F, H.geo, H.cmp, H.rng, pr["obs0"], sig="history-initial" + tag, where="before the first step")
     for k, st in enumerate(pr["steps"]):
